@@ -246,6 +246,11 @@ fn tree_wf(doc: &Document) -> bool {
                 if d.get(b"Type").ok()?.as_name().ok()? != b"Page" {
                     return None;
                 }
+                // two ids that end at the same dictionary are one page listed twice: not a tree (a set_object can make
+                // a leaf id a reference to another leaf)
+                if !seen.insert(target(doc, id)) {
+                    return None;
+                }
                 d
             }
         };
@@ -335,6 +340,81 @@ fn eff_resources(doc: &Document, page: ObjectId) -> Option<BTreeMap<(Vec<u8>, Ve
         node = doc.get_dictionary(node.get(b"Parent").ok()?.as_reference().ok()?).ok()?;
     }
     None
+}
+
+/// the ids passed when references are followed from `o` (at most 64)
+fn ref_chain<'a>(doc: &'a Document, mut o: &'a Object, out: &mut BTreeSet<ObjectId>) {
+    for _ in 0..64 {
+        match o {
+            Object::Reference(id) => {
+                out.insert(*id);
+                match doc.objects.get(id) {
+                    Some(x) => o = x,
+                    None => return,
+                }
+            }
+            _ => return,
+        }
+    }
+}
+
+/// every object the effective resources of `page` are read from: the nodes up the Parent chain to the one that has
+/// Resources, the reference objects and the dictionary object that entry leads to, and those of every category in it
+fn res_support(doc: &Document, page: ObjectId) -> BTreeSet<ObjectId> {
+    let mut s = BTreeSet::new();
+    let mut id = page;
+    for _ in 0..64 {
+        ref_chain(doc, &Object::Reference(id), &mut s);
+        let node = match doc.get_dictionary(id) {
+            Ok(d) => d,
+            Err(_) => break,
+        };
+        if let Ok(r) = node.get(b"Resources") {
+            ref_chain(doc, r, &mut s);
+            if let Some(Object::Dictionary(rd)) = deref(doc, r) {
+                rd.iter().for_each(|(_, v)| ref_chain(doc, v, &mut s));
+            }
+            break;
+        }
+        match node.get(b"Parent").and_then(Object::as_reference) {
+            Ok(p) => id = p,
+            Err(_) => break,
+        }
+    }
+    s
+}
+
+/// what a resource call for `page` may rewrite: the page dictionary, the objects its OWN Resources entry leads through,
+/// and the objects the category entry (of its own or, when it has none, of the nearest inherited dictionary, whose
+/// entries the page's copy starts with) leads through.  An inherited dictionary object itself is NOT in it.
+fn res_scope(doc: &Document, page: ObjectId, cat: Option<&[u8]>) -> BTreeSet<ObjectId> {
+    let mut s = BTreeSet::new();
+    s.insert(target(doc, page));
+    let mut own = true;
+    let mut id = page;
+    for _ in 0..64 {
+        let node = match doc.get_dictionary(id) {
+            Ok(d) => d,
+            Err(_) => break,
+        };
+        if let Ok(r) = node.get(b"Resources") {
+            if own {
+                ref_chain(doc, r, &mut s);
+            }
+            if let (Some(cat), Some(Object::Dictionary(rd))) = (cat, deref(doc, r)) {
+                if let Ok(c) = rd.get(cat) {
+                    ref_chain(doc, c, &mut s);
+                }
+            }
+            break;
+        }
+        own = false;
+        match node.get(b"Parent").and_then(Object::as_reference) {
+            Ok(p) => id = p,
+            Err(_) => break,
+        }
+    }
+    s
 }
 
 /// every reference occurring anywhere in the document names an object
@@ -814,6 +894,31 @@ fn main() {
                         _ => (b"Resources", b"Resources"),
                     };
                     let pt = target(&before, *p);
+                    // the call writes into the page and into the page's OWN resources only: an inherited dictionary (or any
+                    // other object) is never edited where it is, and a page that reads none of these objects keeps exactly
+                    // the resources (names AND what they denote) it had
+                    let scope = res_scope(&before, *p, if matches!(op, Op::Gocr(_)) { None } else { Some(cat) });
+                    for k in &ch {
+                        ck.req(n, scope.contains(k), || format!("the resource operation on {:?} rewrote {:?}, which is neither the page nor an object its own Resources entry leads to (a dictionary other nodes inherit or use was edited in place)", p, k));
+                    }
+                    if !ch.is_empty() {
+                        let mut seen_pages = BTreeSet::new();
+                        for q in before.page_iter().take(4096) {
+                            if !seen_pages.insert(q) || target(&before, q) == pt {
+                                continue;
+                            }
+                            let r0 = eff_resources(&before, q);
+                            if r0 != eff_resources(&doc, q) && res_support(&before, q).is_disjoint(&scope) {
+                                let what = match (&r0, eff_resources(&doc, q)) {
+                                    (Some(a), Some(b)) => a.iter().find(|(k, v)| b.get(*k) != Some(*v)).map(|(k, _)| format!("/{} /{} is gone or denotes another object", String::from_utf8_lossy(&k.0), String::from_utf8_lossy(&k.1)))
+                                        .unwrap_or_else(|| "it gained an entry".into()),
+                                    _ => "defined / undefined".into(),
+                                };
+                                ck.req(n, false, || format!("the resource operation on {:?} changed the effective resources of the other page {:?}: {}", p, q, what));
+                                break;
+                            }
+                        }
+                    }
                     for k in &ch {
                         let ok = match (before.objects.get(k), doc.objects.get(k)) {
                             (Some(Object::Dictionary(d0)), Some(Object::Dictionary(d1))) => {
